@@ -2,6 +2,6 @@
    bool, option, list, prod, unit, sumbool map to OCaml's; N, nat, Z, positive stay inductive). *)
 From Coq Require Import ExtrOcamlBasic.
 From Coq Require Import List NArith ZArith.
-From PP Require Import Base Syntax Spec.
+From PP Require Import Base Syntax Spec SnapStack.
 Extraction Language OCaml.
-Extraction "model.ml" Spec.parse.
+Extraction "model.ml" Spec.parse SnapStack.strace SnapStack.sinit SnapStack.itrace SnapStack.ptrace SnapStack.pinit.
